@@ -59,6 +59,8 @@ type FuncContract struct {
 	TracksOvf   bool
 	Trusted     bool
 	Inline      bool
+	StoreInvs   []StoreInv // obligations at every store to a given field inside this function
+	Skip        string // deliberately not under contract (reason); callers see no contract
 	EstablishesGlobalInvs bool // package initialiser: every globalinv is a post-condition
 	NoBody      bool // only contract used at call sites; body not checked in this run
 	File        string
@@ -102,6 +104,11 @@ type ReplacerSpec struct {
 	Line   int
 }
 
+type StoreInv struct {
+	Path string // T.f
+	C    *Clause
+}
+
 type PackageInv struct {
 	Kind  string // noglobalwrites
 	Props []string
@@ -122,14 +129,26 @@ type Contracts struct {
 
 var tagRe = regexp.MustCompile(`^\[([A-Z0-9, ]+)\]\s*`)
 
-func loadContracts(dir string) (*Contracts, error) {
+func loadContracts(dir string, extra map[string]string) (*Contracts, error) {
 	files, _ := filepath.Glob(filepath.Join(dir, "verif_contracts*.go"))
 	sort.Strings(files)
+	var xs []string
+	for k := range extra {
+		xs = append(xs, k)
+	}
+	sort.Strings(xs)
+	files = append(files, xs...)
 	cs := &Contracts{Funcs: map[string]*FuncContract{}, Ghosts: map[string]*GhostDecl{}, TypeInvs: map[string][]*Clause{}}
 	for _, fn := range files {
-		data, err := os.ReadFile(fn)
-		if err != nil {
-			return nil, err
+		var data []byte
+		if txt, ok := extra[fn]; ok {
+			data = []byte(txt)
+		} else {
+			var err error
+			data, err = os.ReadFile(fn)
+			if err != nil {
+				return nil, err
+			}
 		}
 		var cur *FuncContract
 		var last *Clause
@@ -260,6 +279,27 @@ func loadContracts(dir string) (*Contracts, error) {
 					if strings.TrimSpace(rest) == "ovf" {
 						cur.TracksOvf = true
 					}
+				case "storeinv":
+					// storeinv T.f [Cxx] @label : expr over self (the object written, *T) and val (the value stored)
+					path, r := splitWord(rest)
+					c := &Clause{Kind: "storeinv", File: filepath.Base(fn), Line: i + 1}
+					r = strings.TrimSpace(r)
+					if m := tagRe.FindStringSubmatch(r); m != nil {
+						c.Props = splitProps(m[1])
+						r = r[len(m[0]):]
+					}
+					if strings.HasPrefix(r, "@") {
+						lb, rest2 := splitWord(r)
+						c.Label, r = strings.TrimPrefix(lb, "@"), strings.TrimSpace(rest2)
+					}
+					c.Text = strings.TrimSpace(strings.TrimPrefix(strings.TrimSpace(r), ":"))
+					cur.StoreInvs = append(cur.StoreInvs, StoreInv{Path: path, C: c})
+					last = c
+				case "skip":
+					cur.Skip = strings.TrimSpace(strings.TrimPrefix(strings.TrimSpace(rest), ":"))
+					if cur.Skip == "" {
+						cur.Skip = "no reason given"
+					}
 				case "establishes":
 					if strings.TrimSpace(rest) == "globalinvs" {
 						cur.EstablishesGlobalInvs = true
@@ -329,6 +369,10 @@ func loadContracts(dir string) (*Contracts, error) {
 						c.Props = splitProps(m[1])
 						r2 = r2[len(m[0]):]
 					}
+					if strings.HasPrefix(r2, "@") {
+						lb, rest2 := splitWord(r2)
+						c.Label, r2 = strings.TrimPrefix(lb, "@"), strings.TrimSpace(rest2)
+					}
 					c.Text = r2
 					cur.Loops[n] = append(cur.Loops[n], c)
 					last = c
@@ -342,6 +386,9 @@ func loadContracts(dir string) (*Contracts, error) {
 	for _, fc := range cs.Funcs {
 		all := append(append(append([]*Clause{}, fc.Requires...), fc.Ensures...), fc.Assumes...)
 		all = append(all, fc.Claims...)
+		for _, si := range fc.StoreInvs {
+			all = append(all, si.C)
+		}
 		for _, l := range fc.Loops {
 			all = append(all, l...)
 		}
